@@ -132,11 +132,17 @@ ADDSONS = [None, "", "order", "q6 q4", "c_order vx", "Q6"]
 
 def gen_hdr_frame(rng, nd, ts):
     bb = []
+    tie = rng.random() < 0.12      # tie stream: dyadic bounds (exact in float64), many of them exact rounding ties at 6 decimals
     for _ in range(nd):
-        k = rng.choice([0, 1, 3, 6, 7, 8, 8])
-        lo = dec(rng, -30, 30, k) if k else str(rng.randint(-30, 30))
-        L = dec(rng, 2, 15, rng.choice([0, 2, 7, 8]))
-        hi = ax.fsum(lo, L)
+        if tie:
+            q = rng.choice([128, 256, 512])
+            lo = ax.str_frac(Fraction(rng.randint(-30 * q, 30 * q), q))
+            hi = ax.str_frac(Fraction(lo) + Fraction(rng.randint(2 * q, 15 * q), q))
+        else:
+            k = rng.choice([0, 1, 3, 6, 7, 8, 8])
+            lo = dec(rng, -30, 30, k) if k else str(rng.randint(-30, 30))
+            L = dec(rng, 2, 15, rng.choice([0, 2, 7, 8]))
+            hi = ax.fsum(lo, L)
         bb.append([lo, hi])
     addson = rng.choice(ADDSONS)
     nex = len(str(addson).split())
@@ -176,6 +182,12 @@ def hdr_op(nd, f):
     for a in f["atoms"]:
         parts += atom_words(a, nd)
     return " ".join(parts)
+
+
+def dyadic(c):
+    """all bounds exactly representable in float64: the printed digits are then the exact half-even rounding"""
+    ds = [Fraction(x).denominator for f in c["frames"] for r in f["bb"] for x in r]
+    return all(d & (d - 1) == 0 and d <= 2 ** 20 for d in ds)
 
 
 def eval_hdr(c):
@@ -220,10 +232,9 @@ def eval_hdr(c):
     if o == "bad-op":
         raise common.Infra("driver rejected c19raw lammps")
     sec = sections(o, 2)
-    margin_all = min(margin, Fraction(sec[0]))
     return {"margin": margin, "wrap_margin": Fraction(sec[0]), "tokerr": tokerr, "real": real,
             "impl": ax.parse_result(sec[1]), "spec": ("ok", spec_frames), "specerr": specerr, "text": text,
-            "ok_margin": margin >= TIE_GUARD and margin_all >= GUARD}
+            "ok_margin": (margin >= TIE_GUARD or dyadic(c)) and Fraction(sec[0]) >= GUARD}
 
 
 # ----------------------------------------------------------------------------- streams: center / vector / adds
@@ -710,6 +721,7 @@ def describe(run, c):
         run.hist("hdr:ndim", c["nd"]); run.hist("hdr:frames", len(c["frames"]))
         for f in c["frames"]:
             run.hist("hdr:addson", repr(f["addson"])); run.hist("hdr:natoms", len(f["atoms"]))
+            run.hist("hdr:tie_stream", dyadic({"frames": [f]}))
             run.hist("hdr:max_decimals", max(len(x.split(".")[1]) if "." in x else 0 for r in f["bb"] for x in r))
     elif s in ("center", "vector", "adds"):
         for f in c["frames"]:
@@ -732,6 +744,65 @@ def describe(run, c):
             run.hist("log:rows", len(x["rows"]))
 
 
+def run_malformed(run, texts, n):
+    """coverage of the models' error paths: damaged files (truncated, a line dropped / duplicated, a wrong count); the
+    real routine and Impl are compared, the outcome is reported, never judged (outside the property)"""
+    if not texts:
+        return
+    rng = run.rng
+    agree, dis = 0, []
+    for _ in range(n):
+        c, text = rng.choice(texts)
+        lines = text.split("\n")[:-1]
+        kind = rng.choice(["truncate", "drop", "dup", "count"])
+        if kind == "truncate":
+            lines = lines[:rng.randint(0, max(0, len(lines) - 1))]
+        elif kind == "drop" and lines:
+            del lines[rng.randrange(len(lines))]
+        elif kind == "dup" and lines:
+            k = rng.randrange(len(lines))
+            lines.insert(k, lines[k])
+        elif kind == "count" and len(lines) > 3 and c["stream"] != "log":
+            try:
+                lines[3] = str(int(lines[3]) + rng.choice([-1, 1]))
+            except ValueError:
+                pass
+        bad = "".join(l + "\n" for l in lines)
+        toks = ax.wire_lines(ax.tokenise(bad))
+        s = c["stream"]
+        if s == "center":
+            op = f"c19raw center {c['nd']} {len(c['mol'])} " + " ".join(str(x) for kv in c["mol"] for x in kv) + " " + toks
+            real = real_traj(c, bad)
+        elif s == "vector":
+            op = f"c19raw vector {c['nd']} {len(c['cols'])} " + " ".join(str(x) for x in c["cols"]) + " " + toks
+            real = real_traj(c, bad)
+        elif s == "adds":
+            op = f"c19raw adds {c['ncol']} " + toks
+            real = real_traj(c, bad)
+        else:
+            op = "c19raw log " + toks
+            real = real_log(bad)
+        o = common.drive([" ".join(op.split())])[0]
+        if o == "bad-op":
+            continue
+        sec = sections(o, 2)
+        if Fraction(sec[0]) < GUARD:
+            continue
+        if s == "adds":
+            d = mat_diff(real, parse_mat(sec[1]))
+        elif s == "log":
+            d = tables_diff(real, parse_tables(sec[1]))
+        else:
+            d = ax.diff(real, ax.parse_result(sec[1]))
+        run.hist("malformed", s + ":" + kind + ":" + (real[0] if real[0] != "err" else real[1]))
+        if d is None:
+            agree += 1
+        else:
+            dis.append({"stream": s, "kind": kind, "text": bad[:300], "difference": d[1][:200]})
+    run.coverage["malformed_stream"] = {"cases": n, "agree": agree, "disagree": len(dis), "first_disagreements": dis[:3],
+                                        "note": "coverage of the models' error paths; outside the property, never a violation"}
+
+
 def correspond(run):
     try:
         return _correspond(run)
@@ -749,6 +820,7 @@ def _correspond(run):
     dis, spec_dis, inst, tokfail = {}, {}, {}, {}
     skipped = 0
     outcome = {}
+    texts = []
     for c in cases:
         s = c["stream"]
         r = evaluate(c)
@@ -763,6 +835,8 @@ def _correspond(run):
         outcome[s + ":" + kind] = outcome.get(s + ":" + kind, 0) + 1
         run.count({"c": c}, nontrivial(c), sample={"stream": s, "input": (r.get("text") or str(c))[:400],
                                                     "real": str(r["real"])[:300]})
+        if s in ("center", "vector", "adds", "log") and r.get("text") and len(texts) < 400:
+            texts.append((c, r["text"]))
         if r["inst"]:
             inst.setdefault(s, []).append((c, "Impl ≠ Spec in the driver on an input inside the claim"))
         if r["d_impl"]:
@@ -770,6 +844,7 @@ def _correspond(run):
         if r["d_spec"]:
             spec_dis.setdefault(s, []).append((c, r["d_spec"]))
     run.coverage["skipped_inside_margin"] = skipped
+    run_malformed(run, texts, 60 if quick else 600)
     run.coverage["real_outcomes"] = outcome
     run.coverage["traces_validated_against_impl"] = run.coverage["evaluations"]
     broken = []
